@@ -642,6 +642,12 @@ fn random_world(rng: &mut StdRng, prev: &[ItemSpec], big_rep: usize) -> Vec<Item
     }
     let mut w: Vec<ItemSpec> = Vec::new();
     for it in prev {
+        if it.id >= 100 {
+            // the long-lived pair of the calm phases: only ever permuted, so that a delta applied to a
+            // snapshot of another tick than its base stays visible however much later it is accepted
+            w.push(it.clone());
+            continue;
+        }
         match rng.gen_range(0..10) {
             0 | 1 => {} // disappears
             2 | 3 | 4 => {
@@ -715,6 +721,20 @@ pub fn cmd_drive(args: &[String]) -> i32 {
             p_loss = 0.05;
             p_ack = 1.0;
         }
+        // Calm phases: the world only changes in ways the checksum cannot see (values swap between items,
+        // rotate inside an item), so that a delta applied to another snapshot of the phase than its base still
+        // passes the checksum.  One phase always surrounds the start of the eviction phase.
+        let mut calm: Vec<(usize, usize)> = Vec::new();
+        if let Some(b) = blackout {
+            calm.push((b.saturating_sub(4), b + 25));
+        }
+        for _ in 0..rng.gen_range(0..3) {
+            let a = rng.gen_range(0..ticks.max(1));
+            calm.push((a, a + rng.gen_range(5..25)));
+        }
+        // acknowledgements kept in flight before the oldest is delivered (reordering then lets a late
+        // acknowledgement of an already dropped snapshot reach the sender)
+        let ack_lag: usize = [0, 0, 1, 2, 3][rng.gen_range(0..5)];
         let worlds: Vec<Vec<ItemSpec>> = Vec::new();
         let mut stored_estimate = 0usize;
         let mut comp: Option<(usize, Vec<usize>)> = None;
@@ -724,7 +744,25 @@ pub fn cmd_drive(args: &[String]) -> i32 {
         };
         for tk in 0..ticks {
             vh_common::set_case(&format!("{{\"seed\":{},\"run\":{},\"tick\":{}}}", seed, run_no, tk));
-            world = if neutral_next { neutral_change(&mut rng, &world) } else { random_world(&mut rng, &world, big_rep) };
+            let in_calm = calm.iter().any(|&(a, b)| tk >= a && tk < b);
+            world = if neutral_next || in_calm {
+                let w = neutral_change(&mut rng, &world);
+                if in_calm && w.iter().zip(&world).all(|(x, y)| x.d == y.d) {
+                    // nothing to permute yet: give the world two items that can swap
+                    let mut w = world.clone();
+                    for id in [100u16, 101] {
+                        if !w.iter().any(|i| i.ty == 2 && i.id == id) {
+                            w.push(ItemSpec { ty: 2, id, rep: 1, d: vec![1 + (id as i32 - 100) * 7] });
+                        }
+                    }
+                    sort_world(&mut w);
+                    w
+                } else {
+                    w
+                }
+            } else {
+                random_world(&mut rng, &world, big_rep)
+            };
             neutral_next = false;
             let ev = do_step(&mut sys, &mut cfg, &json!({"a": "tick", "world": world_to_json(&world)}), &worlds);
             let n = ev["out"]["n"].as_u64().unwrap_or(0);
@@ -816,8 +854,14 @@ pub fn cmd_drive(args: &[String]) -> i32 {
                 events += 1;
                 emit(ev, &mut out);
             }
-            while !sys.acks.is_empty() && (sys.acks.len() > 3 || rng.gen_bool(0.7)) {
-                let i = if rng.gen_bool(p_reorder) { rng.gen_range(1..=sys.acks.len()) } else { 1 };
+            while sys.acks.len() > ack_lag && (sys.acks.len() > ack_lag + 3 || rng.gen_bool(0.7)) {
+                let i = if ack_lag > 0 && rng.gen_bool(0.5) {
+                    sys.acks.len() // the newest first: the older ones arrive late
+                } else if rng.gen_bool(p_reorder) {
+                    rng.gen_range(1..=sys.acks.len())
+                } else {
+                    1
+                };
                 let step = if in_blackout || rng.gen_bool(p_loss) {
                     json!({"a": "drop_ack", "i": i})
                 } else {
